@@ -92,10 +92,11 @@ class CheckC03(core.Check):
                     descs.append((name, k, rnd.getrandbits(24), 0))
         else:
             for p, ps in all_variants():
-                name = make_name(p, ps, rnd.choice(DHS), rnd.choice(CIPHERS), rnd.choice(HASHES))
-                parsed = parse_name_simple(name)
-                for k in range(parsed.nmsgs):
-                    descs.append((name, k, rnd.getrandbits(24), 0))
+                for dh in DHS:
+                    name = make_name(p, ps, dh, rnd.choice(CIPHERS), rnd.choice(HASHES))
+                    parsed = parse_name_simple(name)
+                    for k in range(parsed.nmsgs):
+                        descs.append((name, k, rnd.getrandbits(24), 0))
         # expand into chunks of mutations so shards balance: desc = (name, k, seed, chunk)
         out = []
         for name, k, seed, _ in descs:
